@@ -649,6 +649,36 @@ def _check_loader(prog: Program, res: Result, lfi, sec_tabs):
                             sel = [k for k in sel if (k[1] in mem2) == want]
         return sel
 
+    # a key the writer leaves out stands for "not set" (None / False): the loader's fall-back for a missing key must be that, not a
+    # value of its own - otherwise a configuration without the key comes back with one
+    for sec, key, kind, guards, node in v.reads:
+        if kind != "get" or len(node.args) < 2:
+            continue
+        d_ = node.args[1]
+        falsy = isinstance(d_, ast.Constant) and not d_.value
+        res.ob("K3", f"[{sec}] loader .get('{key}', {ast.unparse(d_)[:20]}) falls back on 'not set'", falsy, prog.loc(lfi, node))
+        if not falsy:
+            res.violation("K3", f"{sec}|get-default|{key}|{ast.unparse(d_)[:30]}", prog.loc(lfi, node), WORKER,
+                          f"the loader reads [{sec}].get('{key}', {ast.unparse(d_)[:40]}): the writer leaves '{key}' out exactly when it is not set, so a configuration without it is loaded with "
+                          f"{ast.unparse(d_)[:40]} instead - another configuration (it is written back with the key, and runs another design)")
+    # a key of a section that has no variants (design, simulation, borehole, ...) is written whatever the geometry / pipe choice is:
+    # the loader must read it whatever that choice is - a read that only happens under a test on ANOTHER section drops a written value
+    name_of_sec = {v_: k_ for k_, v_ in sec_of.items() if isinstance(v_, str)}
+    for sec, key, kind, guards, node in v.reads:
+        if sec in ("pipe", "geometric_constraints") or not guards:
+            continue
+        foreign = []
+        for test, pol in guards:
+            names = {x.id for x in ast.walk(test) if isinstance(x, ast.Name)}
+            others = {sec_of[n_] for n_ in names if n_ in sec_of and isinstance(sec_of[n_], str) and sec_of[n_] != sec}
+            enums = any((attr_chain(x) or "").startswith(("DesignGeomType.", "BHPipeType.")) for x in ast.walk(test) if isinstance(x, ast.Attribute))
+            if others or enums:
+                foreign.append(ast.unparse(test)[:80])
+        res.ob("K3", f"[{sec}] loader reads '{key}' whatever the geometry / pipe choice is", not foreign, prog.loc(lfi, node))
+        if foreign:
+            res.violation("K3", f"{sec}|read-under-foreign-guard|{key}", prog.loc(lfi, node), WORKER,
+                          f"the loader reads [{sec}]['{key}'] only when '{foreign[0]}' holds, but the writer emits it for every configuration: a written value is silently dropped on loading "
+                          "(the design that is run differs from the one that was configured, and writing it again loses the key)")
     for sec, key, kind, guards, node in v.reads:
         for tk in variants_for(sec, guards):
             tab, schema_name = sec_tabs[tk]
